@@ -185,6 +185,10 @@ func (r *R) run(cs *Case) {
 		r.pemVerify(cs)
 	case "alias":
 		r.aliasHistory(cs)
+	case "sct-here":
+		r.sctHere(cs)
+	case "ep-history":
+		r.epHistory(cs)
 	default:
 		r.c.Broken("unknown case kind %q", cs.Kind)
 	}
